@@ -205,7 +205,7 @@ type gen struct {
 }
 
 // run the implementation and the oracle on one input, emit the case
-func (g *gen) emitDec(kind string, in []byte, ex expect) {
+func (g *gen) emitDec(kind string, in []byte, ex expect) *decRes {
 	msg, r := g.w.oracle(in, ex)
 	cs := hxlib.Case{Kind: kind, Input: decIn{Kind: kind, Hex: hex.EncodeToString(in), Expect: ex}, OracleErr: msg}
 	hf, bf := parseFormats(in)
@@ -224,6 +224,7 @@ func (g *gen) emitDec(kind string, in []byte, ex expect) {
 		cs.Coq = wrapLets(fmt.Sprintf("CDec %s %s %s", e.coq(), cb(in), obs))
 	}
 	g.c.Emit(cs)
+	return r
 }
 
 func (g *gen) emitEnc(h *honest) {
@@ -483,6 +484,53 @@ func (g *gen) genBodySwap() {
 		h, b := cpH(a.hf), cpB(a.bf)
 		var what string
 		changed := false
+		k2 := -1
+		label := a.label
+		if r.Intn(100) < 35 {
+			// a consistent base the fixtures do not produce: patch transactions (and, for a
+			// block without any, normal ones) with the header's roots recomputed
+			np := 1 + r.Intn(2)
+			b.PatchTransactions = nil
+			for j := 0; j < np; j++ {
+				b.PatchTransactions = append(b.PatchTransactions, testTxBytes(r))
+			}
+			h.PatchTransactionsHash = w.rootOfBytes(b.PatchTransactions)
+			if len(b.NormalTransactions) == 0 {
+				for j := 0; j < 1+r.Intn(3); j++ {
+					b.NormalTransactions = append(b.NormalTransactions, testTxBytes(r))
+				}
+				h.NormalTransactionsHash = w.rootOfBytes(b.NormalTransactions)
+			}
+			label += fmt.Sprintf(" (+%d patch, %d normal, roots recomputed)", np, len(b.NormalTransactions))
+			if r.Intn(2) == 0 {
+				k, k2 = -1, r.Intn(6)
+			}
+		}
+		base := cpB(b)
+		switch k2 {
+		case 0: // every patch transaction stripped: nil list
+			b.PatchTransactions = nil
+			what = "patch transactions stripped (nil list)"
+		case 1:
+			b.PatchTransactions = [][]byte{}
+			what = "patch transactions stripped (empty list)"
+		case 2:
+			b.PatchTransactions = b.PatchTransactions[:len(b.PatchTransactions)-1]
+			what = "last patch transaction removed"
+		case 3:
+			if r.Intn(2) == 0 {
+				b.NormalTransactions = nil
+			} else {
+				b.NormalTransactions = [][]byte{}
+			}
+			what = "normal transactions stripped"
+		case 4:
+			b.PatchTransactions, b.NormalTransactions = nil, nil
+			what = "all transactions stripped"
+		case 5:
+			b.PatchTransactions[r.Intn(len(b.PatchTransactions))] = testTxBytes(r)
+			what = "a patch transaction replaced"
+		}
 		switch k {
 		case 0, 1: // whole body of another block
 			d := g.pick()
@@ -573,11 +621,27 @@ func (g *gen) genBodySwap() {
 					what = "digest replaced"
 				}
 			} else {
-				b.BTPDigest = digestWith(r, int64(r.Intn(200)))
-				if r.Intn(2) == 0 {
-					h.NSFilter = filterBytes(1)
+				// under a header that commits to no digest: with a network digest (filter differs),
+				// with network types but no network digest, and with no network type at all
+				// (both derive an empty filter, like the header's absent one)
+				switch r.Intn(4) {
+				case 0:
+					b.BTPDigest = digestWith(r, int64(r.Intn(200)))
+					if r.Intn(2) == 0 {
+						h.NSFilter = filterBytes(1)
+					}
+					what = "digest added"
+				case 1:
+					b.BTPDigest = digestWith(r)
+					what = "digest added: a network type without network digests"
+				case 2:
+					b.BTPDigest = rlpList(rlpList(rlpList(rlpItem(int64(1+r.Intn(5))), rlpStr([]byte("eth")), rlpStr(randBytes(r, 32)), rlpList()),
+						rlpList(rlpItem(int64(7+r.Intn(5))), rlpStr([]byte("icon")), rlpStr(randBytes(r, 32)), rlpList())))
+					what = "digest added: two network types without network digests"
+				case 3:
+					b.BTPDigest = rlpList(rlpList())
+					what = "digest added: no network type"
 				}
-				what = "digest added"
 			}
 			changed = true
 		case 11: // header filter altered against the digest
@@ -593,11 +657,13 @@ func (g *gen) genBodySwap() {
 			changed = true
 			what = "header filter altered"
 		}
-		if !changed {
+		_ = changed
+		// what was done must have changed the contents of the body or, for the filter, the header
+		if !w.bodyDiffers(base, b) && !(k == 11) {
 			i--
 			continue
 		}
-		g.emitDec("body_swap", enc(h, b), expect{Reject: true, Comment: a.label + ": " + what})
+		g.emitDec("body_swap", enc(h, b), expect{Reject: true, Comment: label + ": " + what})
 	}
 }
 
@@ -1073,6 +1139,7 @@ func genAll(c *hxlib.Ctx) {
 	g.genNoise()
 	g.genNegativeNID()
 	g.genDigestForms()
+	g.genComponents()
 	if c.Tier == "thorough" && !c.OracleOnly {
 		g.nativeFuzz(90)
 	}
@@ -1099,8 +1166,9 @@ func main() {
 	}
 	hxlib.Main(hxlib.Spec{
 		ID: "C08",
-		Rule: "blocks of two fixture chains (one node with a BTP network, messages and 0-5 transactions per block; four validators with commit vote lists of 0-4 items) are marshalled (MarshalHeader+MarshalBody) and decoded by BlockDataFactory.NewBlockDataFromReader; " +
+		Rule: "blocks of five fixture chains (one node with a BTP network, messages and 0-5 transactions per block; 1-4 validators with commit vote lists of 0-4 items) are marshalled (MarshalHeader+MarshalBody) and decoded by BlockDataFactory.NewBlockDataFromReader; " +
 			"derived inputs: consistent blocks re-assembled by the harness (patch/normal transactions, votes, proposer forms, nil/empty fields, extreme integers, synthetic BTP digests and filters), header of one block with body parts of another or altered (must be rejected), single header field changes, " +
+			"a structure-aware malformed stream for every component the decoder parses (commit vote lists with signatures of 0..130 bytes, part-set ids, NTSD proofs; patch/normal transaction lists with JSON v2/v3, binary v3 and test transactions in valid and broken forms; BTP digests; results; next-validators hashes) embedded in honest blocks with and without the header hash recomputed, " +
 			"list forms the marshaller never produces, truncated and extended encodings, byte noise, random bytes, hostile sizes, the fuzz target's seeds (thorough: 90 s of the native fuzz target seeded with the honest encodings). " +
 			"A case is non-trivial when both format structs decode, i.e. the hash comparisons are reached.",
 		Shard:  120,
